@@ -463,3 +463,7 @@ package sam
 //@   decoder
 //@   requires bh != nil
 //@   modifies bh.Comments, arrays(string)
+//@ func Record.RefID
+//@   inline
+//@ func Reference.ID
+//@   inline
